@@ -154,7 +154,7 @@ pub fn plant_dirty(
             continue;
         }
         let fresh = r.files.get(&g).map(|v| v.as_slice());
-        let p = env.root.join(&g);
+        let p = env.root.join(crate::tree::osp(&g));
         match dirty_bytes(rng, fresh, allow_invalid) {
             None => {
                 let _ = std::fs::remove_file(&p);
